@@ -95,7 +95,7 @@ def run(ctx):
     # ---- the first sentence on grammar-driven parses: the queue a successful VM parse leaves behind (hook H1)
     sbatches = []
     stot = {"grammars": 0, "cases": 0, "tokens": 0}
-    for (name, shards, size, length) in ([("wsmod", 2, 1, 4), ("core", 2, 3, 3)] if quick else [("wsmod", 2, 1, 4), ("core", 8, 4, 3), ("ws", 8, 3, 3), ("wsref", 4, 3, 3)]):
+    for (name, shards, size, length) in ([("wsmod", 2, 1, 4), ("core", 2, 3, 3), ("skip", 4, 3, 3)] if quick else [("wsmod", 2, 1, 4), ("core", 8, 4, 3), ("ws", 8, 3, 3), ("wsref", 4, 3, 3), ("skip", 8, 4, 4)]):
         cases, rs, n = gen_slice(ctx, name, shards, size, length, jobs=12)
         for r in rs:
             ctx.cov["states"] += r.distinct
@@ -113,9 +113,12 @@ def run(ctx):
         for t0 in ("", "_", "@", "$", "!"):
             for t1 in ("", "_", "@", "$", "!"):
                 for t2 in ("", "_", "@", "$", "!"):
-                    for body0 in ('"<" ~ r1 ~ ">"', 'r1 ~ ("," ~ r1)*', '&r1 ~ r1', '!("q" ~ r1) ~ r1 ~ r1?', '&(!"q" ~ r1) ~ r1', '&(&r1 ~ r1) ~ r1', '!(!r1 ~ "q") ~ r1'):
+                    for body0 in ('"<" ~ r1 ~ ">"', 'r1 ~ ("," ~ r1)*', '&r1 ~ r1', '!("q" ~ r1) ~ r1 ~ r1?', '&(!"q" ~ r1) ~ r1', '&(&r1 ~ r1) ~ r1', '!(!r1 ~ "q") ~ r1',
+                                  # a sequence abandoned AFTER a rule in it has matched, the failure absorbed by ? / * / | inside the same rule
+                                  '(r1 ~ ";")? ~ r1', '(r1 ~ ";")* ~ r1 ~ "."?', 'r1 ~ ";" ~ "." | r1'):
                         text = 'r0 = %s{ %s }\nr1 = %s{ r2 ~ ("," ~ r2)* }\nr2 = %s{ "x" ~ ("-" ~ "x")? ~ r3? }\nr3 = { "y" | ^"\u00e9z" }\nWHITESPACE = _{ " " }\n' % (t0, body0, t1, t2)
-                        inputs = ["<x>", "<x-x,x>", "x,x", "x-x", "<x,x y>", "<x, x-xy>", "x", "<xy,xy>", "x,x,x-x", "< x >", "<x\u00e9Z>", "x\u00e9z,x\u00e9z"]
+                        inputs = ["<x>", "<x-x,x>", "x,x", "x-x", "<x,x y>", "<x, x-xy>", "x", "<xy,xy>", "x,x,x-x", "< x >", "<x\u00e9Z>", "x\u00e9z,x\u00e9z",
+                                  "x;x", "x;x;x,x", "xy;x-x", "x;", "x;x."]
                         f.write(json.dumps({"text": text, "cases": [{"start": "r0", "inp": [ord(c) for c in i], "exp": {"k": "unknown"}} for i in inputs]}) + "\n")
     out = os.path.join(ctx.work, "str_nest3.ndjson")
     s = run_json([vh, "streams-emit", "--cases", nest, "--out", out], timeout=6000)
